@@ -37,7 +37,7 @@ ENTRIES = {
     "C05": {
         "text": "TLC enumerates, for K=1,2,4, every row index (data and parity half), both transmitted halves and the edits "
                 "of the half (altered share, swap, duplicate, share or whole half of another row, other half, wrong side "
-                "label, short/long half) over spec/SqRow.tla, where Reed-Solomon extension/reconstruction is axiomatic; "
+                "label, short/long half) and in-memory rows handed to Row::verify directly (the committed row plus one surplus share, a duplicated tail, a whole extra half, the row twice; rows one share short, the data half only, empty; swaps, altered shares, other rows) over spec/SqRow.tla, where Reed-Solomon extension/reconstruction is axiomatic; "
                 "the spec demands accept for the honest half and reject otherwise. Each case is concretised on real "
                 "squares of widths 2..64 (..128 thorough) under three coordinate scalings, sent through Row encode / "
                 "Row::decode (leopard encode for the left half, reconstruct for the right half) and Row::verify (also on a Row "
@@ -116,7 +116,7 @@ def run(ck):
                           "offset, plus get_namespace_data against the scan per (square, target, width); non-trivial = "
                           "distinct (case, width, offset) whose demanded verdict is accept or reject")
     elif ck.prop == "C05":
-        allc = _gen(ck, "SqRow", (1, 2, 4), ["Honest", "Edit"])
+        allc = _gen(ck, "SqRow", (1, 2, 4), ["Honest", "Edit", "FullRow"])
         widths = "2,4,8,16,32,64" if ck.quick else "2,4,8,16,32,64,128"
         s = ck.harness(hb, ["replay", "sqrow", allc, "--seed", ck.seed, "--widths", widths], "replay")
         ck.cov["rule"] = ("every (row index, side, edit) generated by TLC for K=1,2,4 at each width under up to 3 "
